@@ -265,6 +265,9 @@ def _hdf5_read_signal(rfilename, dtype, key, **kwargs):
 
 def _numpy_binary_read_signal(rfilename, dtype, key, **kwargs):
     data = np.load(rfilename, **kwargs)
+    if not isinstance(data, np.ndarray):
+        # np.load also opens archives (and pickles): that is not a signal
+        raise IOError("expected a numpy binary, but loaded a {}".format(type(data)))
     if dtype:
         data = data.astype(dtype)
     return data
